@@ -315,6 +315,7 @@ impl<'a> GeneratorState<'a> {
                 }
             }
             if self.acc_in_use { self.sasm(PLA)?; }
+            self.flags = FlagsState::Unknown;
             self.carry_flag_ok = false;
             Ok(ExprType::Nothing)
         } else {
